@@ -491,6 +491,19 @@ func runHistory(h history, emit emitFn, hidx int) []string {
 				emit("", "", false, []string{"sched:create-failed:" + a.Sched}, nil)
 				continue
 			}
+			caseStores := stores
+			if a.Sched == schedulers.ScatterRangeType && len(a.Args) == 3 {
+				// scatter-range schedules on a RangeCluster, which recomputes region / pending-peer counts and used space of
+				// every store from the regions of the range: print the stores the way ITS filters see them
+				rc := schedule.GenRangeCluster(tc, []byte(a.Args[0]), []byte(a.Args[1]))
+				all := rc.GetStores()
+				sort.Slice(all, func(i, j int) bool { return all[i].GetID() < all[j].GetID() })
+				xs := make([]string, len(all))
+				for i, st := range all {
+					xs[i] = bt.CoqStore(st)
+				}
+				caseStores = "[" + strings.Join(xs, ";\n    ") + "]"
+			}
 			got := 0
 			for try := 0; try < 4 && got == 0; try++ {
 				ops := s.Schedule(tc)
@@ -501,7 +514,7 @@ func runHistory(h history, emit emitFn, hidx int) []string {
 					}
 					got++
 					opS, tr := coqOp(region, op)
-					coq := fmt.Sprintf("(Case %s\n   %s\n   %s %s\n   %s\n   None)", coqSched(op.Desc(), a.Sched), stores, labels, coqRegion(region), opS)
+					coq := fmt.Sprintf("(Case %s\n   %s\n   %s %s\n   %s\n   None)", coqSched(op.Desc(), a.Sched), caseStores, labels, coqRegion(region), opS)
 					log = append(log, fmt.Sprintf("schedule %s %v -> region %d: %s", a.Sched, a.Args, region.GetID(), sim10.Summary(op)))
 					emit(coq, coq, true, []string{"sched:" + a.Sched + ":operator", "op:" + op.Desc()}, anomalies(tr, sim10.Summary(op)))
 				}
